@@ -229,7 +229,8 @@ class Network:
     def get_total_discovery_value(self):
         total = 0
         for host in self.hosts.values():
-            total += host.discovery_value
+            # a negative discovery value is a penalty an agent may avoid
+            total += max(0, host.discovery_value)
         return total
 
     def get_minimal_hops(self):
